@@ -818,6 +818,12 @@ class Interp:
             if isinstance(x, str) and isinstance(y, str):
                 if x != y:
                     return False
+            elif isinstance(x, FinExpr) and isinstance(y, str):
+                if not self.char_test(SymChar(x.cid), lambda ch, y=y, f=x.fn: f(ch) == y, f"{x.desc}=={y!r}"):
+                    return False
+            elif isinstance(y, FinExpr) and isinstance(x, str):
+                if not self.char_test(SymChar(y.cid), lambda ch, x=x, f=y.fn: f(ch) == x, f"{y.desc}=={x!r}"):
+                    return False
             elif isinstance(x, SymChar) and isinstance(y, str):
                 if not self.char_test(x, lambda ch, y=y: ch == y, f"ch{x.cid}=={y!r}"):
                     return False
@@ -1490,7 +1496,7 @@ class Interp:
                                                  "isspace", "isdigit", "isalpha", "find", "count", "casefold",
                                                  "title", "swapcase", "capitalize"):
                 return Bound(obj, _StrMethod("concrete:" + attr))
-        if isinstance(obj, (SymStr, SymChar)) and attr in ("startswith", "endswith"):
+        if isinstance(obj, (SymStr, SymChar)) and attr in ("startswith", "endswith", "lower", "upper", "casefold"):
             return Bound(obj, _StrMethod("sym:" + attr))
         if isinstance(obj, FactorDict):
             if attr in ("keys",):
@@ -2327,6 +2333,21 @@ Interp.call_function = _call_function  # type: ignore
 def _call_builtin_method(self: Interp, info, args, kwargs):
     obj, rest = args[0], args[1:]
     n = info.name
+    if isinstance(obj, (SymStr, SymChar)) and n in ("sym:lower", "sym:upper", "sym:casefold"):
+        fn = getattr(str, n[4:])
+        out = []
+        for x in self._as_symstr(obj).items:
+            if isinstance(x, str):
+                out.append(fn(x))
+            elif isinstance(x, SymChar):
+                if any(len(fn(m)) != 1 for m in self.charsets[x.cid]):
+                    raise Unsupported(f"{n} changes the length of a member of ch{x.cid} at {self.site}")
+                out.append(FinExpr(x.cid, fn, f"{n[4:]}(ch{x.cid})"))
+            elif isinstance(x, FinExpr):
+                out.append(FinExpr(x.cid, (lambda m, f=x.fn, g=fn: g(f(m))), f"{n[4:]}({x.desc})"))
+            else:
+                raise Unsupported(f"{n} on {x!r} at {self.site}")
+        return SymStr(tuple(out))
     if isinstance(obj, (SymStr, SymChar)) and n.startswith("sym:"):
         arg = rest[0] if rest else None
         if not isinstance(arg, str):
